@@ -188,7 +188,7 @@ contract(
 # ----------------------------------------------------------------------------- trivial accessors
 contract(PP + 'get_is_leaf', [('self', PT)], pure=True, returns=TBool,
          ensures=lambda S0, S, a, res: [('value', res.t == S0.fld('Point', '_is_leaf', a['self'].t))])
-contract(PP + 'set_name', [('self', PT), ('name', TOpt(TStr))], returns=TNone,
+contract(PP + 'set_name', [('self', PT), ('name', TOpt(TStr))], returns=TNone, allocates=False,
          ensures=lambda S0, S, a, res: [('stored', z3.And(S.fld_none('Point', 'name', a['self'].t) == a['name'].none,
                                                          z3.Implies(z3.Not(a['name'].none), S.fld('Point', 'name', a['self'].t) == a['name'].t)))],
          modifies=lambda S, a: {'f:name': lambda r: r == a['self'].t, 'f:name?none': lambda r: r == a['self'].t})
